@@ -6,7 +6,7 @@ Theorems are about `Ctl.run` (L6): for EVERY event list - every completion order
 any random decisions of the algorithm core (`chs`, the choices inside the events), any initial value.
 Float laws used: none.
 -/
-import CambrianModel.Lemmas.CtlInv
+import CambrianModel.Lemmas.CtlStep
 namespace Cambrian.Props
 open Cambrian Cambrian.Ctl
 
@@ -43,5 +43,47 @@ theorem C03_zero (c : Cfg) (ss : Nat) (iv : Option V) (d : V) (chs : Nat → Alg
     have hb := h.bal
     have : (run c ss iv d chs evs).1.inflight.length = 0 := by omega
     exact hne (List.length_eq_zero_iff.mp this)
+
+/-- If no other criterion, failure or termination request ends the run first (the run is over, no abort was ever
+    latched - which covers failures and termination requests - and the target was not reached), the objective
+    function was started exactly `N` times and the accepted and rejected counts sum to `N`. -/
+theorem C03_exact (c : Cfg) (hnc : 0 < c.nc) (ss : Nat) (v0 d : V) (chs : Nat → Algo.Choice V) (evs : List (Ev V))
+    (N : Nat) (hN : c.maxEval = some N)
+    (hdone : (run c ss (some v0) d chs evs).1.done = true)
+    (hab : (run c ss (some v0) d chs evs).1.aborted = false)
+    (ht : targetHit c (run c ss (some v0) d chs evs).1.core = false) :
+    nStarts (run c ss (some v0) d chs evs).2 = N ∧
+    nItemsAcc (run c ss (some v0) d chs evs).2 + nItemsRej (run c ss (some v0) d chs evs).2 = N := by
+  have h := run_inv c ss (some v0) d chs evs
+  have h2 := run_inv2 c hnc ss v0 d chs evs
+  obtain ⟨e1, e2⟩ := h2.exact hab hdone ht N hN
+  rw [C03_starts_eq_pushed, h.itemsA, h.itemsR]
+  exact ⟨e2, e1⟩
+
+/-- ... and the counts in the final report sum to `N`. -/
+theorem C03_exact_report (c : Cfg) (hnc : 0 < c.nc) (ss : Nat) (v0 d : V) (chs : Nat → Algo.Choice V)
+    (evs : List (Ev V)) (N : Nat) (hN : c.maxEval = some N)
+    (hab : (run c ss (some v0) d chs evs).1.aborted = false)
+    (ht : targetHit c (run c ss (some v0) d chs evs).1.core = false)
+    (b : Int) (v : V) (a rj : Nat) (dr : List Nat)
+    (hret : Act.ret (.ok b v a rj) dr ∈ (run c ss (some v0) d chs evs).2) : a + rj = N := by
+  have h2 := run_inv2 c hnc ss v0 d chs evs
+  obtain ⟨hd, ho⟩ := h2.retOut _ _ hret
+  obtain ⟨e1, _⟩ := h2.exact hab hd ht N hN
+  simp only [outcome] at ho
+  split at ho
+  · simp at ho
+  · split at ho
+    · injection ho with _ _ h3 h4; omega
+    · simp at ho
+
+/-- non-vacuity: a schedule satisfying the premises of `C03_exact` (budget 2, concurrency 1, both results accepted) -/
+example :
+    let c : Cfg := { nc := 1, maxEval := some 2, target := none }
+    let evs : List (Ev Nat) := [.complete 0 (.acc 5 5) ⟨false, 7⟩, .complete 1 (.acc 3 3) ⟨false, 8⟩]
+    (run c 1 (some 0) 0 (fun _ => ⟨false, 0⟩) evs).1.done = true ∧
+    (run c 1 (some 0) 0 (fun _ => ⟨false, 0⟩) evs).1.aborted = false ∧
+    targetHit c (run c 1 (some 0) 0 (fun _ => ⟨false, 0⟩) evs).1.core = false ∧
+    nStarts (run c 1 (some 0) 0 (fun _ => ⟨false, 0⟩) evs).2 = 2 := by decide
 
 end Cambrian.Props
